@@ -702,6 +702,10 @@ func (peer *peer) handleUpdate(e *fsmMsg) ([]*table.Path, []bgp.Family, bool) {
 
 				if hasOwnASLoop(localAS, allowOwnAS, aspath, confedID, confedEnabled) {
 					path.SetRejected(true)
+					// The rejected path still replaces whatever this peer
+					// advertised before for the same NLRI (implicit withdraw):
+					// take the previous path out of the Loc-RIB.
+					paths = append(paths, path.Clone(true))
 					continue
 				}
 			}
@@ -719,6 +723,8 @@ func (peer *peer) handleUpdate(e *fsmMsg) ([]*table.Path, []bgp.Family, bool) {
 						slog.String("Data", path.String()))
 
 					path.SetRejected(true)
+					// see above: the previous path of this peer must go
+					paths = append(paths, path.Clone(true))
 					continue
 				}
 			}
